@@ -2414,7 +2414,7 @@ class XonshParser(Parser):
         return None
 
     def proc_cmd(self) -> Any | None:
-        # proc_cmd: &sub_proc_start ~ sub_procs | '@(' ~ (bare_genexp | expressions) ')' | '@$(' ~ proc_cmds ')' | env_atom | search_path | proc_macro_start ~ MACRO_PARAM? | cmd_group | cmd_name
+        # proc_cmd: &sub_proc_start ~ sub_procs | '@(' ~ (bare_genexp | expressions) ')' | '@$(' ~ proc_cmds ')' | &'${' ~ env_atom | env_atom | search_path | proc_macro_start ~ MACRO_PARAM? | cmd_group | cmd_name
         mark = self._mark()
         _lnum, _col = self._tokenizer.peek().start
         cut = False
@@ -2432,6 +2432,12 @@ class XonshParser(Parser):
         cut = False
         if (self.expect("@$(")) and (cut := True) and (a := self.proc_cmds()) and (self.expect(")")):
             return self.proc_inject(a, **self.span(_lnum, _col))
+        self._reset(mark)
+        if cut:
+            return None
+        cut = False
+        if (self.positive_lookahead(self.expect, "${")) and (cut := True) and (env_atom := self.env_atom()):
+            return env_atom
         self._reset(mark)
         if cut:
             return None
